@@ -1,5 +1,7 @@
 import Vanguard.Lemmas.Source
 import Vanguard.Lemmas.Chunking
+import Vanguard.Lemmas.ReadSizes
+import Vanguard.Model.World
 /-!
   C08 — Results do not depend on how bytes are split across reads, writes, flushes.
 
@@ -13,7 +15,12 @@ import Vanguard.Lemmas.Chunking
   size limit) cuts the same message, compressed flag or error out of the same bytes and leaves the same
   bytes (`enveloped_message_chunking_independent`), hence the whole **sequence of request messages
   and its final condition** do not depend on the segmentation (`message_sequence_chunking_independent`).
-  Partial: the corresponding statement for the whole reader/writer adapters (`erRead`, `trRead`,
+  **Handler read-buffer sizes** (re-encoding reader, `transformingReader.Read`): two handlers that read the
+  same request with any buffer sizes `≥ 1` - down to a single byte - until the body ends are given the
+  same bytes and the same final error (`read_buffer_sizes_do_not_matter`).  Behind it: the stream of
+  bytes a request state will hand out is defined without reference to read sizes (`Stream`), is
+  unique (`Stream.det`), and every `Read(n)` hands out a prefix of it and leaves the rest (`trRead_step`).
+  Partial: the corresponding statement for the re-framing reader (`erRead`) and the writers (`erRead`, `trRead`,
   `ewLoop`, `twLoop`) is not yet a theorem; it is checked on the implementation *and* on the model by
   the `chunk` stream, which runs every scenario under its coarsest segmentation and under a random
   one (request pieces, read-buffer sizes down to 1, write pieces, flushes, empty writes) and demands
@@ -93,5 +100,28 @@ theorem copy_all_limited_spec (w : World) (limit fuel : Nat) (st : St) (hf : st.
 example (o : Op) : StEq { op := o, src := { chunks := [[0, 0, 0, 0, 2, 7, 8]], ending := .eof }, sink := {} }
                         { op := o, src := { chunks := [[0], [0, 0], [], [0, 2, 7], [8]], ending := .eof }, sink := {} } :=
   ⟨rfl, rfl, rfl, rfl, ⟨rfl, rfl⟩⟩
+
+/-- **The request bytes a backend handler reads do not depend on its read-buffer sizes** (re-encoding
+    path; `Reads` = the handler calls `Read` with the buffer sizes of the list, each at least 1, until a
+    `Read` reports an error, `io.EOF` included). -/
+theorem read_buffer_sizes_do_not_matter (w : World) (pl : HandlePlan) (st : St) (r : TR) (ns1 ns2 : List Nat)
+    (o1 o2 : Bytes) (e1 e2 : Err) (hwf : r.WF) (herr : r.err = none)
+    (h1 : Reads w pl st r ns1 o1 e1) (h2 : Reads w pl st r ns2 o2 e2) : o1 = o2 ∧ e1 = e2 :=
+  read_sizes_do_not_matter hwf herr h1 h2
+
+/-- Every single `Read(n)`, `n ≥ 1`, hands out a prefix of the stream and leaves the rest. -/
+theorem every_read_is_a_stream_step (w : World) (pl : HandlePlan) (F : Nat) (st : St) (r : TR) (n : Nat)
+    (hn : 1 ≤ n) (hwf : r.WF) (herr : r.err = none) : StepOk w pl st r (trRead w pl F st r n) :=
+  trRead_step w pl F st r n hn hwf herr
+
+/-- Non-vacuity (kernel-evaluated): a gRPC-Web client (codec `raw`) in front of a gRPC backend (codec
+    `hexa`), body = one frame `00 00 00 00 02 | 07 08` in two pieces.  A fresh reader is well-formed; a
+    `Read(100)` returns the re-encoded message with its envelope, a `Read(1)` returns its first byte. -/
+def dConf : MethodConf := { path := s "/p.S/M", streamType := .unary, noSideEffects := false, protocols := [.grpc], codecs := [hexaName], compressors := [], maxMsg := 100, maxGetURL := 100 }
+def dOp : Op := { conf := dConf, cform := .grpcWeb, sform := .grpc, reqMeta := {}, ccodec := rawName, scodec := hexaName, cReqComp := none, sReqComp := none, headers := [], contentLen := -1, query := [], reqMethod := sPOST }
+def dSt : St := { op := dOp, src := { chunks := [[0, 0, 0, 0, 2, 7], [8]], ending := .eof }, sink := {} }
+example : ({} : TR).WF ∧ ({} : TR).err = none := ⟨⟨by decide, fun h => by simp at h⟩, rfl⟩
+example : (trRead fakeWorld (dOp.plan fakeWorld) 30 dSt {} 100).1 = [0, 0, 0, 0, 4, 48, 55, 48, 56] := by decide +kernel
+example : (trRead fakeWorld (dOp.plan fakeWorld) 30 dSt {} 1).1 = [0] := by decide +kernel
 
 end Vanguard.C08
